@@ -2,9 +2,9 @@
 EXTENDS C02_Mux, Json
 StJ == << opened, [s \in Streams |-> [d \in Dirs |-> <<sent[<<s, d>>], Len(rbuf[<<s, d>>]), wfin[<<s, d>>],
                                                       rfin[<<s, d>>], Len(delivered[<<s, d>>]), eof[<<s, d>>]>>]],
-          [d \in Dirs |-> [i \in 1..Len(wire[d]) |-> <<wire[d][i].s, Len(wire[d][i].pt), wire[d][i].fin>>]], loose >>
+          [d \in Dirs |-> [i \in 1..Len(wire[d]) |-> <<wire[d][i].s, Len(wire[d][i].pt), wire[d][i].fin>>]], loose, cut, dead, [s \in Streams |-> [d \in Dirs |-> failed[<<s, d>>]]] >>
 \* pump transitions are printed too (the harness skips them: the real receive loop runs by itself)
 EmitEdge == PrintT(<<"VFEDGE", ToJson([s |-> StJ, op |-> op', t |-> StJ'])>>)
-Conf == [streams |-> Streams, maxsent |-> MaxSent, maxmsg |-> MaxMsg, maxtotal |-> MaxTotal, maxclose |-> MaxClose, bufs |-> Bufs, glitches |-> Glitches]
+Conf == [streams |-> Streams, maxsent |-> MaxSent, maxmsg |-> MaxMsg, maxtotal |-> MaxTotal, maxclose |-> MaxClose, bufs |-> Bufs, glitches |-> Glitches, cuts |-> Cuts]
 MCInit == Init /\ PrintT(<<"VFINIT", ToJson(StJ)>>) /\ PrintT(<<"VFCONF", ToJson(Conf)>>)
 =============================================================================
